@@ -332,6 +332,15 @@ def boundary(r, exhaustive=False):
     for iname, pre in idiom_prefixes(r):
         for tname, s in canonical_templates(r):
             yield "idiom:%s+%s" % (iname, tname), pre + s
+    # an idiom with nothing (or not enough) after it: the prefix alone, every truncation of prefix + pay-to-pubkey-hash, the prefix
+    # followed by one more opcode — code that strips a recognised prefix must cope with there being nothing left to strip it from
+    for iname, pre in idiom_prefixes(r):
+        yield "idiom:alone:" + iname, pre
+        full = pre + canonical_templates(r)[0][1]
+        for cut in range(1, len(full)):
+            yield "idiom:cut:" + iname, full[:cut]
+        for op in (b"\x6d", b"\x75", b"\x61", b"\x51", b"\xac", b"\x6a"):
+            yield "idiom:plus-op:" + iname, pre + op
     for tname, s in canonical_templates(r):
         for suf in (b"\x75", b"\x51", b"\x68", b"\x01\x07\x75", b"\x6a", b"\xac", b"\x87", b"\x88\xac",
                     b"\x05ab", b"\x01", b"\x4b" + b"z" * 10, b"\x4c", b"\x4c\x05a", b"\x4d\x01", b"\x4d\x05\x00ab", b"\x4e", b"\x4e\x01\x00\x00"):   # incl. pushes that run past the end
